@@ -63,10 +63,8 @@ func (p *process) Invoke(msgs []Envelope) {
 		nmsg = len(msgs)
 		// numbers of msgs that are processed.
 		nproc = 0
-		// FIXME: We could use nrpoc here, but for some reason placing nproc++ on the
-		// bottom of the function it freezes some tests. Hence, I created a new counter
-		// for bookkeeping.
-		processed = 0
+		// the graceful poison pill whose drain is in progress, if any.
+		draining *Envelope
 	)
 	defer func() {
 		// If we recovered, we buffer up all the messages that we could not process
@@ -77,10 +75,14 @@ func (p *process) Invoke(msgs []Envelope) {
 				applyMiddleware(p.context.receiver.Receive, p.Opts.Middleware...)(p.context)
 			}
 
-			p.mbuffer = make([]Envelope, nmsg-nproc)
-			for i := 0; i < nmsg-nproc; i++ {
-				p.mbuffer[i] = msgs[i+nproc]
+			p.mbuffer = make([]Envelope, 0, nmsg-nproc+1)
+			// A panic while draining for a poison pill: keep the pill in front of
+			// the remaining messages, so the restarted process finishes the drain
+			// and stops.
+			if draining != nil {
+				p.mbuffer = append(p.mbuffer, *draining)
 			}
+			p.mbuffer = append(p.mbuffer, msgs[nproc:]...)
 			p.tryRestart(v)
 		}
 	}()
@@ -92,16 +94,17 @@ func (p *process) Invoke(msgs []Envelope) {
 			// If we need to gracefuly stop, we process all the messages
 			// from the inbox, otherwise we ignore and cleanup.
 			if pill.graceful {
-				msgsToProcess := msgs[processed:]
-				for _, m := range msgsToProcess {
+				draining = &msgs[i]
+				for _, m := range msgs[i+1:] {
+					nproc++
 					p.invokeMsg(m)
 				}
+				draining = nil
 			}
 			p.cleanup(pill.cancel)
 			return
 		}
 		p.invokeMsg(msg)
-		processed++
 	}
 }
 
